@@ -1,2 +1,182 @@
+"""Generates /verif/gen/shell.rs from /repo's *current* runtime/src/vm/dispatch/run.rs.
+
+`VM::run_fast` cannot be symbolically executed in situ (goto-instrument runs out of memory on the 4000-line
+loop).  The generator re-instantiates the body of run_fast once per opcode group, *verbatim* except for four
+textual edits that are listed in EDITS below and are reported in the evidence:
+
+  E1  `const REGISTER_STACK_SIZE: usize = 16384;`  ->  `= VERIF_REGS;`   (the register file the harness built)
+  E2  after `loop {`            : stop-after-one-step logic that exports the loop's cached locals (StepOut)
+  E3  after `let opcode_byte =` : `kani::assume(opcode_byte == OP); let opcode_byte: u8 = OP;` (OP const generic)
+  E4  the dispatch `match`      : arms of other opcode groups are dropped; `include!("ops/x.inc")` gets an
+                                  absolute path (the handler text itself is the repository's file, included as is)
+
+Everything else (prologue, end-of-bytecode arm, fetch, the four register macros, the invalid-opcode arm) is
+copied character for character; the generator checks that, after undoing E1-E4, the text equals the body
+of run_fast, and refuses to produce a shell otherwise.
+"""
+import os, re, glob, hashlib
+
+
+class GenError(Exception):
+    pass
+
+
+def _match_brace(text, open_idx):
+    """index of the brace matching text[open_idx] == '{', skipping // comments, strings and char literals"""
+    assert text[open_idx] == "{"
+    depth, i, n = 0, open_idx, len(text)
+    while i < n:
+        c = text[i]
+        if c == "/" and text.startswith("//", i):
+            i = text.index("\n", i)
+            continue
+        if c == '"':
+            i += 1
+            while text[i] != '"':
+                i += 2 if text[i] == "\\" else 1
+        elif c == "{":
+            depth += 1
+        elif c == "}":
+            depth -= 1
+            if depth == 0:
+                return i
+        i += 1
+    raise GenError("unbalanced braces")
+
+
+ARM_RE = re.compile(r"(?P<lead>(?:[ \t]*//[^\n]*\n)*)[ \t]*(?P<pat>[0-9][0-9|.= \t\n]*?)\s*=>\s*\{\s*include!\(\"ops/(?P<file>\w+)\.inc\"\);\s*\}\n", re.S)
+
+LOCALS = ["ip", "base", "func_ref", "bytecode_ptr", "bytecode_len", "constants_ptr", "constants_len",
+          "upvalues_ptr", "upvalues_len", "current_frame_idx", "global_mapping_id"]
+
+
+def parse_run_rs(repo):
+    path = os.path.join(repo, "runtime/src/vm/dispatch/run.rs")
+    src = open(path).read()
+    m = re.search(r"pub fn run_fast\(&mut self\) -> Result<Value, RuntimeError> \{", src)
+    if not m:
+        raise GenError("run_fast signature not found")
+    bo = m.end() - 1
+    bc = _match_brace(src, bo)
+    body = src[bo + 1:bc]
+    uses = re.findall(r"^use [^;]+;\n", src[:m.start()], re.M | re.S)
+    uses = "".join(u for u in re.findall(r"(?ms)^use .*?;\n", src[:m.start()]))
+    # the dispatch match
+    mm = re.search(r"match opcode_byte \{", body)
+    if not mm:
+        raise GenError("dispatch match not found")
+    mo = mm.end() - 1
+    mc = _match_brace(body, mo)
+    table = body[mo + 1:mc]
+    arms = []
+    pos = 0
+    for am in ARM_RE.finditer(table):
+        if table[pos:am.start()].strip():
+            raise GenError("unparsed text in dispatch table: %r" % table[pos:am.start()][:80])
+        arms.append({"text": am.group(0), "pat": " ".join(am.group("pat").split()), "file": am.group("file")})
+        pos = am.end()
+    default = table[pos:]
+    if not re.match(r"\s*_ => \{", default):
+        raise GenError("default arm not found")
+    if not arms:
+        raise GenError("no arms")
+    return {"path": path, "src": src, "uses": uses, "body": body, "pre": body[:mo + 1], "post": body[mc:],
+            "arms": arms, "default": default, "table": table}
+
+
+E1_FROM = "const REGISTER_STACK_SIZE: usize = 16384;"
+E1_TO = "const REGISTER_STACK_SIZE: usize = VERIF_REGS;"
+E2_ANCHOR = "        loop {\n"
+E2_INS = ("            if !__first {\n"
+          "                *__out = Some(StepOut { %s });\n"
+          "                return Ok(Value::null());\n"
+          "            }\n"
+          "            __first = false;\n") % ", ".join(LOCALS)
+E3_ANCHOR = "            let opcode_byte = (instr >> 24) as u8;\n"
+E3_INS = ("            kani::assume(opcode_byte == OP);\n"
+          "            let opcode_byte: u8 = OP;\n")
+
+
+def pat_to_list(pat):
+    out = []
+    for part in pat.split("|"):
+        part = part.strip()
+        if "..=" in part:
+            a, b = part.split("..=")
+            out += list(range(int(a), int(b) + 1))
+        else:
+            out.append(int(part))
+    return out
+
+
+def build_step(info, arm, opsdir):
+    pre = info["pre"]
+    for anchor in (E1_FROM, E2_ANCHOR, E3_ANCHOR):
+        if pre.count(anchor) != 1:
+            raise GenError("anchor %r occurs %d times in run_fast" % (anchor.strip(), pre.count(anchor)))
+    pre2 = pre.replace(E1_FROM, E1_TO).replace(E2_ANCHOR, E2_ANCHOR + E2_INS).replace(E3_ANCHOR, E3_ANCHOR + E3_INS)
+    if arm is None:
+        name, armtext = "invalid", ""
+    else:
+        name = arm["file"]
+        armtext = arm["text"].replace('include!("ops/%s.inc")' % arm["file"], 'include!("%s/%s.inc")' % (opsdir, arm["file"]))
+    fn = ("    #[allow(unused_unsafe, unused_assignments, unused_variables, unused_mut, unreachable_code, clippy::all)]\n"
+          "    pub(crate) fn step_%s<const OP: u8>(&mut self, __out: &mut Option<StepOut>) -> Result<Value, RuntimeError> {\n"
+          "        let mut __first = true;\n%s\n%s%s%s    }\n") % (name, pre2, armtext, info["default"], info["post"])
+    # self-check: undoing the edits gives back the original text
+    undo = pre2.replace(E3_ANCHOR + E3_INS, E3_ANCHOR).replace(E2_ANCHOR + E2_INS, E2_ANCHOR).replace(E1_TO, E1_FROM)
+    if undo != pre:
+        raise GenError("edit self-check failed")
+    return name, fn
+
+
 def generate(repo, gen, verif):
-    return {}
+    os.makedirs(gen, exist_ok=True)
+    info = parse_run_rs(repo)
+    opsdir = os.path.join(repo, "runtime/src/vm/dispatch/ops")
+    steps, groups = [], {}
+    for arm in info["arms"]:
+        if not os.path.exists(os.path.join(opsdir, arm["file"] + ".inc")):
+            raise GenError("missing ops file " + arm["file"])
+        name, fn = build_step(info, arm, opsdir)
+        steps.append(fn)
+        groups[name] = pat_to_list(arm["pat"])
+    name, fn = build_step(info, None, opsdir)
+    steps.append(fn)
+    covered = sorted(set(sum(groups.values(), [])))
+    groups["invalid"] = [o for o in range(256) if o not in covered]
+
+    inrepo = os.path.join(verif, "harness", "inrepo")
+    parts = []
+    parts.append("// GENERATED by /verif/lib/shellgen.py from %s -- do not edit\n" % info["path"])
+    parts.append("#![allow(unused, clippy::all)]\n" if False else "")
+    parts.append(info["uses"])
+    parts.append("\n#[derive(Clone, Copy, Debug)]\npub(crate) struct StepOut {\n"
+                 "    pub ip: usize, pub base: usize, pub func_ref: GcRef, pub bytecode_ptr: *const u32, pub bytecode_len: usize,\n"
+                 "    pub constants_ptr: *const Value, pub constants_len: usize, pub upvalues_ptr: *const GcRef, pub upvalues_len: usize,\n"
+                 "    pub current_frame_idx: usize, pub global_mapping_id: usize,\n}\n\n")
+    parts.append("impl VM {\n" + "\n".join(steps) + "}\n\n")
+    # opcode -> group dispatcher used by generated harnesses
+    for f in sorted(glob.glob(os.path.join(inrepo, "*.rs"))):
+        parts.append('include!("%s");\n' % f)
+    # generated per-opcode harnesses
+    import opgen
+    gen_h = opgen.generate(repo, groups)
+    open(os.path.join(gen, "ops_gen.rs"), "w").write(gen_h["text"])
+    parts.append('include!("%s");\n' % os.path.join(gen, "ops_gen.rs"))
+    text = "".join(parts)
+    out = os.path.join(gen, "shell.rs")
+    old = open(out).read() if os.path.exists(out) else None
+    if old != text:
+        open(out, "w").write(text)
+    h = hashlib.sha256(info["body"].encode()).hexdigest()[:16]
+    return {"run_rs": info["path"], "run_fast_body_sha256_16": h, "groups": {k: len(v) for k, v in groups.items()},
+            "edits": ["E1 REGISTER_STACK_SIZE -> VERIF_REGS", "E2 stop-after-one-step + StepOut export", "E3 opcode fixed to const generic OP",
+                      "E4 dispatch table reduced to one group, include! paths made absolute"],
+            "self_check": "undoing E1-E3 reproduces run_fast's text up to the dispatch table; table arms parsed without residue",
+            "generated_op_harnesses": gen_h["count"]}
+
+
+if __name__ == "__main__":
+    import sys, json
+    print(json.dumps(generate("/repo", "/verif/gen", "/verif"), indent=1))
